@@ -1,0 +1,160 @@
+//go:build verif
+
+package connectconformance
+
+// Contracts for the deductive verifier in /verif (comment-only file; no code).
+//
+// Enum values used below: HTTP version 1/2/3; protocol 1 = Connect, 2 = gRPC,
+// 3 = gRPC-Web; codec 3 = TEXT (deprecated, ignored); stream type 4 = half-duplex,
+// 5 = full-duplex.
+
+//@ func contains
+//@   pure
+//@   ensures result == contains(slice, find)
+//@   loop 0: invariant !containsUpTo(slice, rangeindex + 1, find)
+
+//@ func only
+//@   pure
+//@   ensures result == (len(slice) > 0 && (forall i int :: 0 <= i && i < len(slice) ==> slice[i] == find))
+//@   loop 0: invariant forall i int :: 0 <= i && i <= rangeindex ==> slice[i] == find
+
+// Membership among the first n elements of a slice (n = len: membership), by recursion on n.
+//@ spec memI(s []int, n int, x int) bool = n > 0 && (memI(s, n - 1, x) || s[n-1] == x)
+//@ spec memB(s []bool, n int, x bool) bool = n > 0 && (memB(s, n - 1, x) || s[n-1] == x)
+
+// validCase(c, f): the config case c is internally possible -
+// gRPC only over HTTP/2, HTTP/3 only with TLS, cleartext HTTP/2 only with H2C support,
+// client certificates only with TLS, no full-duplex over HTTP/1.1, half-duplex over
+// HTTP/1.1 only if declared (GET only with Connect: getOK).
+//@ spec validCase(c configCase, f supportedFeatures) bool =
+//@    !(!c.UseTLS && (c.Version == 3 || (c.Version == 2 && !f.SupportsH2C))) &&
+//@    !(c.UseTLSClientCerts && !c.UseTLS) &&
+//@    !(c.Protocol == 2 && c.Version != 2) &&
+//@    !(c.StreamType == 4 && !f.SupportsHalfDuplexBidiOverHTTP1 && c.Version == 1) &&
+//@    !(c.StreamType == 5 && c.Version == 1) &&
+//@    c.Codec != 3 && c.ConnectVersionMode == 0
+
+//@ spec getOK(c configCase, f supportedFeatures) bool = !c.UseConnectGET || (c.Protocol == 1 && f.SupportsConnectGet)
+
+// nested membership conditions, innermost loop first
+//@ spec in8(c configCase, lim []bool) bool = memB(lim, len(lim), c.UseMessageReceiveLimit)
+//@ spec in7(c configCase, gets []bool, lim []bool) bool = memB(gets, len(gets), c.UseConnectGET) && in8(c, lim)
+//@ spec in6(c configCase, f supportedFeatures, gets []bool, lim []bool) bool = memI(f.Compressions, len(f.Compressions), c.Compression) && in7(c, gets, lim)
+//@ spec in5(c configCase, f supportedFeatures, gets []bool, lim []bool) bool = memI(f.Codecs, len(f.Codecs), c.Codec) && in6(c, f, gets, lim)
+//@ spec in4(c configCase, f supportedFeatures, lim []bool) bool =
+//@    memI(f.StreamTypes, len(f.StreamTypes), c.StreamType) && memI(f.Codecs, len(f.Codecs), c.Codec) && memI(f.Compressions, len(f.Compressions), c.Compression) && getOK(c, f) && in8(c, lim)
+//@ spec in3(c configCase, f supportedFeatures, lim []bool) bool = memI(f.Protocols, len(f.Protocols), c.Protocol) && in4(c, f, lim)
+//@ spec in2(c configCase, f supportedFeatures, cert []bool, lim []bool) bool = memB(cert, len(cert), c.UseTLSClientCerts) && in3(c, f, lim)
+//@ spec in1(c configCase, f supportedFeatures, tls []bool, cert []bool, lim []bool) bool = memB(tls, len(tls), c.UseTLS) && in2(c, f, cert, lim)
+
+// the three boolean axes: given explicitly, or derived from the features
+//@ spec axisBool(given []bool, supported bool, b bool) bool = len(given) == 0 ? (!b || supported) : memB(given, len(given), b)
+
+// The result is exactly the set comprehension over all axes, filtered by validCase.
+//@ func computeCasesFromFeatures
+//@   modifies nothing
+//@   ensures result != nil && fresh(result)
+//@   ensures @set forall c configCase :: has(result, c) ==
+//@      (memI(features.Versions, len(features.Versions), c.Version) && axisBool(tlsCases, features.SupportsTLS, c.UseTLS) &&
+//@       axisBool(tlsClientCertCases, features.SupportsTLSClientCerts, c.UseTLSClientCerts) &&
+//@       axisBool(msgRecvLimitCases, features.SupportsMessageReceiveLimit, c.UseMessageReceiveLimit) &&
+//@       memI(features.Protocols, len(features.Protocols), c.Protocol) && memI(features.StreamTypes, len(features.StreamTypes), c.StreamType) &&
+//@       memI(features.Codecs, len(features.Codecs), c.Codec) && memI(features.Compressions, len(features.Compressions), c.Compression) &&
+//@       getOK(c, features) && validCase(c, features))
+//@   loop 0: invariant cases != nil && fresh(cases)
+//@           invariant (memB(tlsCases, len(tlsCases), false) == axisBool(old(tlsCases), features.SupportsTLS, false)) && (memB(tlsCases, len(tlsCases), true) == axisBool(old(tlsCases), features.SupportsTLS, true))
+//@           invariant (memB(tlsClientCertCases, len(tlsClientCertCases), false) == axisBool(old(tlsClientCertCases), features.SupportsTLSClientCerts, false)) && (memB(tlsClientCertCases, len(tlsClientCertCases), true) == axisBool(old(tlsClientCertCases), features.SupportsTLSClientCerts, true))
+//@           invariant (memB(msgRecvLimitCases, len(msgRecvLimitCases), false) == axisBool(old(msgRecvLimitCases), features.SupportsMessageReceiveLimit, false)) && (memB(msgRecvLimitCases, len(msgRecvLimitCases), true) == axisBool(old(msgRecvLimitCases), features.SupportsMessageReceiveLimit, true))
+//@           invariant forall c configCase :: has(cases, c) ==
+//@              (memI(features.Versions, rangeindex + 1, c.Version) && in1(c, features, tlsCases, tlsClientCertCases, msgRecvLimitCases) && validCase(c, features))
+//@   loop 1: invariant cases != nil && fresh(cases)
+//@           invariant forall i int :: 0 <= i && i < len(tlsCases) ==> tlsCases[i] == atentry(tlsCases[i])
+//@           invariant forall i int :: 0 <= i && i < len(tlsClientCertCases) ==> tlsClientCertCases[i] == atentry(tlsClientCertCases[i])
+//@           invariant forall i int :: 0 <= i && i < len(msgRecvLimitCases) ==> msgRecvLimitCases[i] == atentry(msgRecvLimitCases[i])
+//@           invariant (memB(tlsCases, len(tlsCases), false) == axisBool(old(tlsCases), features.SupportsTLS, false)) && (memB(tlsCases, len(tlsCases), true) == axisBool(old(tlsCases), features.SupportsTLS, true))
+//@           invariant (memB(tlsClientCertCases, len(tlsClientCertCases), false) == axisBool(old(tlsClientCertCases), features.SupportsTLSClientCerts, false)) && (memB(tlsClientCertCases, len(tlsClientCertCases), true) == axisBool(old(tlsClientCertCases), features.SupportsTLSClientCerts, true))
+//@           invariant (memB(msgRecvLimitCases, len(msgRecvLimitCases), false) == axisBool(old(msgRecvLimitCases), features.SupportsMessageReceiveLimit, false)) && (memB(msgRecvLimitCases, len(msgRecvLimitCases), true) == axisBool(old(msgRecvLimitCases), features.SupportsMessageReceiveLimit, true))
+//@           invariant forall c configCase :: has(cases, c) == (atentry(has(cases, c)) ||
+//@              (c.Version == version && memB(tlsCases, rangeindex + 1, c.UseTLS) && in2(c, features, tlsClientCertCases, msgRecvLimitCases) && validCase(c, features)))
+//@   loop 2: invariant cases != nil && fresh(cases)
+//@           invariant forall i int :: 0 <= i && i < len(tlsCases) ==> tlsCases[i] == atentry(tlsCases[i])
+//@           invariant forall i int :: 0 <= i && i < len(tlsClientCertCases) ==> tlsClientCertCases[i] == atentry(tlsClientCertCases[i])
+//@           invariant forall i int :: 0 <= i && i < len(msgRecvLimitCases) ==> msgRecvLimitCases[i] == atentry(msgRecvLimitCases[i])
+//@           invariant (memB(tlsCases, len(tlsCases), false) == axisBool(old(tlsCases), features.SupportsTLS, false)) && (memB(tlsCases, len(tlsCases), true) == axisBool(old(tlsCases), features.SupportsTLS, true))
+//@           invariant (memB(tlsClientCertCases, len(tlsClientCertCases), false) == axisBool(old(tlsClientCertCases), features.SupportsTLSClientCerts, false)) && (memB(tlsClientCertCases, len(tlsClientCertCases), true) == axisBool(old(tlsClientCertCases), features.SupportsTLSClientCerts, true))
+//@           invariant (memB(msgRecvLimitCases, len(msgRecvLimitCases), false) == axisBool(old(msgRecvLimitCases), features.SupportsMessageReceiveLimit, false)) && (memB(msgRecvLimitCases, len(msgRecvLimitCases), true) == axisBool(old(msgRecvLimitCases), features.SupportsMessageReceiveLimit, true))
+//@           invariant forall c configCase :: has(cases, c) == (atentry(has(cases, c)) ||
+//@              (c.Version == version && c.UseTLS == tlsCase && memB(tlsClientCertCases, rangeindex + 1, c.UseTLSClientCerts) && in3(c, features, msgRecvLimitCases) && validCase(c, features)))
+//@   loop 3: invariant cases != nil && fresh(cases)
+//@           invariant forall i int :: 0 <= i && i < len(tlsCases) ==> tlsCases[i] == atentry(tlsCases[i])
+//@           invariant forall i int :: 0 <= i && i < len(tlsClientCertCases) ==> tlsClientCertCases[i] == atentry(tlsClientCertCases[i])
+//@           invariant forall i int :: 0 <= i && i < len(msgRecvLimitCases) ==> msgRecvLimitCases[i] == atentry(msgRecvLimitCases[i])
+//@           invariant (memB(tlsCases, len(tlsCases), false) == axisBool(old(tlsCases), features.SupportsTLS, false)) && (memB(tlsCases, len(tlsCases), true) == axisBool(old(tlsCases), features.SupportsTLS, true))
+//@           invariant (memB(tlsClientCertCases, len(tlsClientCertCases), false) == axisBool(old(tlsClientCertCases), features.SupportsTLSClientCerts, false)) && (memB(tlsClientCertCases, len(tlsClientCertCases), true) == axisBool(old(tlsClientCertCases), features.SupportsTLSClientCerts, true))
+//@           invariant (memB(msgRecvLimitCases, len(msgRecvLimitCases), false) == axisBool(old(msgRecvLimitCases), features.SupportsMessageReceiveLimit, false)) && (memB(msgRecvLimitCases, len(msgRecvLimitCases), true) == axisBool(old(msgRecvLimitCases), features.SupportsMessageReceiveLimit, true))
+//@           invariant forall c configCase :: has(cases, c) == (atentry(has(cases, c)) ||
+//@              (c.Version == version && c.UseTLS == tlsCase && c.UseTLSClientCerts == tlsClientCertCase &&
+//@               memI(features.Protocols, rangeindex + 1, c.Protocol) && in4(c, features, msgRecvLimitCases) && validCase(c, features)))
+//@   loop 4: invariant cases != nil && fresh(cases)
+//@           invariant memB(connectGetCases, len(connectGetCases), false) && (memB(connectGetCases, len(connectGetCases), true) == (protocol == 1 && features.SupportsConnectGet))
+//@           invariant forall c configCase :: has(cases, c) == (atentry(has(cases, c)) ||
+//@              ( c.Version == version && c.UseTLS == tlsCase && c.UseTLSClientCerts == tlsClientCertCase && c.Protocol == protocol &&
+//@               memI(features.StreamTypes, rangeindex + 1, c.StreamType) && in5(c, features, connectGetCases, msgRecvLimitCases) && validCase(c, features)))
+//@   loop 5: invariant cases != nil && fresh(cases)
+//@           invariant forall c configCase :: has(cases, c) == (atentry(has(cases, c)) ||
+//@              ( c.Version == version && c.UseTLS == tlsCase && c.UseTLSClientCerts == tlsClientCertCase && c.Protocol == protocol && c.StreamType == streamType &&
+//@               memI(features.Codecs, rangeindex + 1, c.Codec) && in6(c, features, connectGetCases, msgRecvLimitCases) && validCase(c, features)))
+//@   loop 6: invariant cases != nil && fresh(cases)
+//@           invariant forall c configCase :: has(cases, c) == (atentry(has(cases, c)) ||
+//@              ( c.Version == version && c.UseTLS == tlsCase && c.UseTLSClientCerts == tlsClientCertCase && c.Protocol == protocol && c.StreamType == streamType && c.Codec == codec &&
+//@               memI(features.Compressions, rangeindex + 1, c.Compression) && in7(c, connectGetCases, msgRecvLimitCases) && validCase(c, features)))
+//@   loop 7: invariant cases != nil && fresh(cases)
+//@           invariant forall c configCase :: has(cases, c) == (atentry(has(cases, c)) ||
+//@              ( c.Version == version && c.UseTLS == tlsCase && c.UseTLSClientCerts == tlsClientCertCase && c.Protocol == protocol && c.StreamType == streamType && c.Codec == codec &&
+//@               c.Compression == compression && memB(connectGetCases, rangeindex + 1, c.UseConnectGET) && in8(c, msgRecvLimitCases) && validCase(c, features)))
+//@   loop 8: invariant cases != nil && fresh(cases)
+//@           invariant forall c configCase :: has(cases, c) == (atentry(has(cases, c)) ||
+//@              ( c.Version == version && c.UseTLS == tlsCase && c.UseTLSClientCerts == tlsClientCertCase && c.Protocol == protocol && c.StreamType == streamType && c.Codec == codec &&
+//@               c.Compression == compression && c.UseConnectGET == connectGetCase && memB(msgRecvLimitCases, rangeindex + 1, c.UseMessageReceiveLimit) && validCase(c, features)))
+
+// ---- resolveFeatures: defaults ("largest usable set") and contradictions ----
+
+// value of an optional bool flag with its default
+//@ spec optBool(p *bool, dflt bool) bool = p == nil ? dflt : *p
+
+// the configuration contradicts itself (config.proto / docs/configuring_and_running_tests.md)
+//@ spec specContradictory(f *conformancev1.Features) bool =
+//@    (optBool(f.SupportsTlsClientCerts, false) && !optBool(f.SupportsTls, true)) ||
+//@    (len(f.Versions) > 0 && f.SupportsH2C != nil && *f.SupportsH2C && !memI(f.Versions, len(f.Versions), 2)) ||
+//@    (memI(f.Versions, len(f.Versions), 3) && !optBool(f.SupportsTls, true)) ||
+//@    (memI(f.Versions, len(f.Versions), 2) && !optBool(f.SupportsH2C, true) && !optBool(f.SupportsTls, true)) ||
+//@    (memI(f.Protocols, len(f.Protocols), 2) && !optBool(f.SupportsTrailers, true)) ||
+//@    (memI(f.Protocols, len(f.Protocols), 2) && !specHasH2(f)) ||
+//@    (memI(f.StreamTypes, len(f.StreamTypes), 5) && !specHasH2(f) && !memI(f.Versions, len(f.Versions), 3)) ||
+//@    (memI(f.StreamTypes, len(f.StreamTypes), 4) && !specHasH2(f) && !memI(f.Versions, len(f.Versions), 3) && !optBool(f.SupportsHalfDuplexBidiOverHttp1, false))
+// HTTP/2 is among the (defaulted) versions
+//@ spec specHasH2(f *conformancev1.Features) bool =
+//@    len(f.Versions) > 0 ? memI(f.Versions, len(f.Versions), 2) : (optBool(f.SupportsTls, true) || optBool(f.SupportsH2C, true))
+
+//@ func resolveFeatures
+//@   requires features != nil
+//@   modifies nothing
+//@   ensures @contradiction (result_1 != nil) == specContradictory(features)
+//@   ensures @flags result_1 == nil ==>
+//@      result_0.SupportsH2C == optBool(features.SupportsH2C, true) && result_0.SupportsTLS == optBool(features.SupportsTls, true) &&
+//@      result_0.SupportsTLSClientCerts == optBool(features.SupportsTlsClientCerts, false) && result_0.SupportsTrailers == optBool(features.SupportsTrailers, true) &&
+//@      result_0.SupportsHalfDuplexBidiOverHTTP1 == optBool(features.SupportsHalfDuplexBidiOverHttp1, false) &&
+//@      result_0.SupportsConnectGet == optBool(features.SupportsConnectGet, true) && result_0.SupportsMessageReceiveLimit == optBool(features.SupportsMessageReceiveLimit, true)
+//@   ensures @versions result_1 == nil ==> (forall v int :: memI(result_0.Versions, len(result_0.Versions), v) ==
+//@      (len(features.Versions) > 0 ? memI(features.Versions, len(features.Versions), v) : (v == 1 || (v == 2 && (result_0.SupportsTLS || result_0.SupportsH2C)))))
+//@   ensures @protocols result_1 == nil ==> (forall v int :: memI(result_0.Protocols, len(result_0.Protocols), v) ==
+//@      (len(features.Protocols) > 0 ? memI(features.Protocols, len(features.Protocols), v) : (v == 1 || v == 3 || (v == 2 && result_0.SupportsTrailers && specHasH2(features)))))
+//@   ensures @codecs result_1 == nil ==> (forall v int :: memI(result_0.Codecs, len(result_0.Codecs), v) ==
+//@      (len(features.Codecs) > 0 ? memI(features.Codecs, len(features.Codecs), v) : (v == 1 || v == 2)))
+//@   ensures @compressions result_1 == nil ==> (forall v int :: memI(result_0.Compressions, len(result_0.Compressions), v) ==
+//@      (len(features.Compressions) > 0 ? memI(features.Compressions, len(features.Compressions), v) : (v == 1 || v == 2)))
+//@   ensures @streamtypes result_1 == nil ==> (forall v int :: memI(result_0.StreamTypes, len(result_0.StreamTypes), v) ==
+//@      (len(features.StreamTypes) > 0 ? memI(features.StreamTypes, len(features.StreamTypes), v) :
+//@        (v == 1 || v == 2 || v == 3 ||
+//@         (v == 4 && (specHasH2(features) || memI(features.Versions, len(features.Versions), 3) || result_0.SupportsHalfDuplexBidiOverHTTP1)) ||
+//@         (v == 5 && (specHasH2(features) || memI(features.Versions, len(features.Versions), 3))))))
